@@ -80,6 +80,7 @@ enum PointID : int {
   kEpochForwardRetired = 56,  // ForwardGlobalEpoch: nodes retired, before publishing
   kEpochForwardEnd = 57,      // ForwardGlobalEpoch: published
   kEpochBindHeartbeat = 58,   // CreateEpochGuard: about to (re)bind the heartbeat
+  kEpochLookupBegin = 59,     // ProtectedNode::GetProtectedEpochs: head of the list read, before the traversal
 };
 
 /// @brief A scheduling point: called between two atomic steps of one operation.
